@@ -12,7 +12,7 @@ import os
 from pathlib import Path
 
 from .ir import TranslateError
-from .kernel import (Closure, Executor, Num, Obj, Prim, Sc, Static, Vec, fail, find_function, lift, materialise, run_function, set_carrier, term_of,
+from .kernel import (BUILTIN_PRIMS, Closure, Executor, Num, Obj, Prim, Sc, Static, Vec, fail, find_function, lift, materialise, run_function, set_carrier, term_of,
                      to_sc)
 
 
@@ -60,6 +60,9 @@ class Kernel:
         self.prims = prims or {}
         self.variables = variables        # Section variables (text lines)
         self.module_funcs = module_funcs  # names of module-level helper functions made callable
+
+
+BUILTIN_COND = BUILTIN_PRIMS["lax.cond"]
 
 
 def _tree_at(ex, n, args, kwargs):
@@ -115,9 +118,10 @@ def ctor_prim(file, cls):
             for st in inits[0].body:      # only `self.x = jnp.asarray(x)` / `self.x = x` initialisers are understood
                 if isinstance(st, ast.Expr) and isinstance(st.value, ast.Constant):
                     continue
+                import re as _re
                 ok = (isinstance(st, ast.Assign) and len(st.targets) == 1 and isinstance(st.targets[0], ast.Attribute)
                       and ast.unparse(st.targets[0]) == "self." + st.targets[0].attr
-                      and ast.unparse(st.value) in (st.targets[0].attr, f"jnp.asarray({st.targets[0].attr})"))
+                      and _re.fullmatch(r"(jnp\.(as)?array\()?" + st.targets[0].attr + r"(, dtype=\w+)?\)?", ast.unparse(st.value)))
                 if not ok:
                     fail(st, f"{cls}.__init__ does more than store its arguments")
         else:
@@ -256,7 +260,165 @@ def _p_std(ex, n, args, kwargs):
     return Sc("R", f"(std {materialise(args[0])})")
 
 
+# ------------------------------------------------------------------------------------------------ C10: schedule arithmetic
+def _numit_bind():
+    return {"self": Obj({"num_envs": Z("N"), "num_steps": Z("T")}, "algo"), "total_timesteps": Z("total")}
+
+
+def _dqn_periter_bind():
+    return {"self": Obj({"target_update_interval": Z("(Z.of_nat interval)")}, "DQN"),
+            "state": Obj({"iteration_count": Z("(Z.of_nat count)"), "policy": O("online"), "target_policy": O("target")}, "DQNState")}
+
+
+def _dqn_periter_out(res, ex):
+    if not (isinstance(res, Obj) and term_of(res.fields["iteration_count"]) == "(Z.of_nat count)" and term_of(res.fields["policy"]) == "online"):
+        raise TranslateError("per_iteration changes more than the target network")
+    return [("target", "X", term_of(res.fields["target_policy"]))]
+
+
+def _polyak_bind():
+    return {"state": Obj({"qf1": R("q1"), "qf1_target": R("t1"), "qf2": R("q2"), "qf2_target": R("t2")}, "SACState"), "tau": R("tau")}
+
+
+def _polyak_out(res, ex):
+    if not (isinstance(res, Obj) and term_of(res.fields["qf1"]) == "q1" and term_of(res.fields["qf2"]) == "q2"):
+        raise TranslateError("_soft_update_targets changes the online critics")
+    return [("t1", "R", term_of(res.fields["qf1_target"], "R")), ("t2", "R", term_of(res.fields["qf2_target"], "R"))]
+
+
+def _p_partition(ex, n, args, kwargs):
+    """eqx.partition(tree, eqx.is_inexact_array): the parameters are modelled as ONE real leaf, the static part is opaque"""
+    if len(args) != 2 or kwargs:
+        fail(n, "partition form")
+    return (args[0], Static("static"))
+
+
+_SCHED_PRIMS = {"eqx.tree_at": Prim(_tree_at), "filter_cond": BUILTIN_COND, "eqx.partition": Prim(_p_partition),
+                "eqx.is_inexact_array": Static("is_inexact_array"),
+                "eqx.combine": Prim(lambda ex, n, a, k: a[0] if len(a) == 2 and isinstance(a[1], Static) else fail(n, "combine form"))}
+
+
+# ------------------------------------------------------------------------------------------------ C01 / C13: environments
+def env_obj(E):
+    """an environment as the record E of coq/theories/Env.v: every functional component is an uninterpreted field of E"""
+    def comp(field, npos, keyed):
+        def f(ex, n, args, kwargs):
+            if len(args) != npos or set(kwargs) != ({"key"} if keyed else set()):
+                fail(n, f"call form of {field}")
+            ts = [a.t if isinstance(a, Sc) else fail(n, "argument is not a scalar value") for a in args]
+            if keyed:
+                if not (isinstance(kwargs["key"], Sc) and kwargs["key"].ty == "K"):
+                    fail(n, "key argument is not a key")
+                ts.append(kwargs["key"].t)
+            ty = {"e_term": "B", "e_trunc": "B", "e_rew": "R"}.get(field, "O")
+            return Sc(ty, f"({field} {E} {' '.join(ts)})")
+        return Prim(f)
+    return Obj({"initial": comp("e_init", 0, True), "transition": comp("e_trans", 2, True), "observation": comp("e_obs", 1, True),
+                "reward": comp("e_rew", 3, True), "terminal": comp("e_term", 1, True), "truncate": comp("e_trunc", 1, False),
+                "action_mask": comp("e_mask", 1, True), "state_info": comp("e_sinfo", 1, False),
+                "transition_info": comp("e_tinfo", 3, False)}, "env")
+
+
+def _step_out(res, ex):
+    if not (isinstance(res, tuple) and len(res) == 6):
+        raise TranslateError("step no longer returns (state, observation, reward, terminal, truncate, info)")
+    tys = [("state", "S"), ("observation", "O"), ("reward", "Q"), ("terminal", "bool"), ("truncate", "bool"), ("info", "Q")]
+    return [(nm, ty, term_of(v)) for (nm, ty), v in zip(tys, res)]
+
+
+def _reset_out(res, ex):
+    if not (isinstance(res, tuple) and len(res) == 3):
+        raise TranslateError("reset no longer returns (state, observation, info)")
+    return [(nm, ty, term_of(v)) for (nm, ty), v in zip([("state", "S"), ("observation", "O"), ("info", "Q")], res)]
+
+
+def _tl_self():
+    return Obj({"env": env_obj("E"), "max_episode_steps": Z("n")}, "TimeLimit")
+
+
+def _tl_state(c, s):
+    return Obj({"step_count": Z(c), "env_state": O(s)}, "TimeLimitState")
+
+
+def _tl_state_out(res, ex):
+    if not (isinstance(res, Obj) and set(res.fields) == {"step_count", "env_state"}):
+        raise TranslateError("not a TimeLimitState")
+    return [("count", "Z", term_of(res.fields["step_count"], "Z")), ("env_state", "S", term_of(res.fields["env_state"]))]
+
+
+_TL_PRIMS = {"TimeLimitState": ctor_prim("wrapper/misc.py", "TimeLimitState")}
+_TL_PARAMS = "{S A O : Type} (E : env S A O) (n : Z)"
+
+
+def _tl(name, func, bind, params, out):
+    return Kernel(name, "wrapper/misc.py", "TimeLimit", func, bind, _TL_PARAMS + params, out, prims=_TL_PRIMS, carrier="Q")
+
+
+def _aw_self():
+    return Obj({"env": env_obj("E"), "func": Prim(lambda ex, n, a, k: Sc("O", f"(f {a[0].t})") if len(a) == 1 and not k else fail(n, "func call form"))},
+               "ActionWrapper")
+
+
+def _aw_state(s):
+    return Obj({"env_state": O(s)}, "TransformActionState")
+
+
+_AW_FILES = (["wrapper/transform_action.py", "wrapper/base_wrapper.py"], ["AbstractPureTransformActionWrapper", "AbstractWrapper"])
+_AW_PRIMS = {"TransformActionState": ctor_prim("wrapper/transform_action.py", "TransformActionState")}
+_AW_PARAMS = "{S A O : Type} (E : env S A O) (f : A -> A)"
+
+
+def _aw(name, func, bind, params, out):
+    return Kernel(name, _AW_FILES[0], _AW_FILES[1], func, bind, _AW_PARAMS + params, out, prims=_AW_PRIMS, carrier="Q")
+
+
+def _aw_state_out(res, ex):
+    if not (isinstance(res, Obj) and set(res.fields) == {"env_state"}):
+        raise TranslateError("not a TransformActionState")
+    return [("env_state", "S", term_of(res.fields["env_state"]))]
+
+
 KERNELS = {
+    "C01": [Kernel("step", "env/base_env.py", "AbstractEnvLike", "step",
+                   lambda: {"self": env_obj("E"), "state": O("s"), "action": O("a"), "key": K("k")},
+                   "{S A O : Type} (E : env S A O) (s : S) (a : A) (k : kpath)", _step_out, carrier="Q"),
+            Kernel("reset", "env/base_env.py", "AbstractEnvLike", "reset", lambda: {"self": env_obj("E"), "key": K("k")},
+                   "{S A O : Type} (E : env S A O) (k : kpath)", _reset_out, carrier="Q")],
+    "C13": [_tl("tl_initial", "initial", lambda: {"self": _tl_self(), "key": K("k")}, " (k : kpath)", _tl_state_out),
+            _tl("tl_transition", "transition", lambda: {"self": _tl_self(), "state": _tl_state("c", "si"), "action": O("a"), "key": K("k")},
+                " (c : Z) (si : S) (a : A) (k : kpath)", _tl_state_out),
+            _tl("tl_truncate", "truncate", lambda: {"self": _tl_self(), "state": _tl_state("c", "si")}, " (c : Z) (si : S)",
+                lambda res, ex: [("value", "bool", term_of(res))]),
+            _tl("tl_observation", "observation", lambda: {"self": _tl_self(), "state": _tl_state("c", "si"), "key": K("k")},
+                " (c : Z) (si : S) (k : kpath)", lambda res, ex: [("value", "O", term_of(res))]),
+            _tl("tl_reward", "reward", lambda: {"self": _tl_self(), "state": _tl_state("c", "si"), "action": O("a"),
+                                                "next_state": _tl_state("c2", "si2"), "key": K("k")},
+                " (c : Z) (si : S) (a : A) (c2 : Z) (si2 : S) (k : kpath)", lambda res, ex: [("value", "Q", term_of(res))]),
+            _tl("tl_terminal", "terminal", lambda: {"self": _tl_self(), "state": _tl_state("c", "si"), "key": K("k")},
+                " (c : Z) (si : S) (k : kpath)", lambda res, ex: [("value", "bool", term_of(res))]),
+            _tl("tl_action_mask", "action_mask", lambda: {"self": _tl_self(), "state": _tl_state("c", "si"), "key": K("k")},
+                " (c : Z) (si : S) (k : kpath)", lambda res, ex: [("value", "option (list bool)", term_of(res))]),
+            _aw("aw_transition", "transition", lambda: {"self": _aw_self(), "state": _aw_state("s"), "action": O("a"), "key": K("k")},
+                " (s : S) (a : A) (k : kpath)", _aw_state_out),
+            _aw("aw_reward", "reward", lambda: {"self": _aw_self(), "state": _aw_state("s"), "action": O("a"), "next_state": _aw_state("s2"), "key": K("k")},
+                " (s : S) (a : A) (s2 : S) (k : kpath)", lambda res, ex: [("value", "Q", term_of(res))]),
+            _aw("aw_transition_info", "transition_info", lambda: {"self": _aw_self(), "state": _aw_state("s"), "action": O("a"), "next_state": _aw_state("s2")},
+                " (s : S) (a : A) (s2 : S)", lambda res, ex: [("value", "Q", term_of(res))]),
+            _aw("aw_truncate", "truncate", lambda: {"self": _aw_self(), "state": _aw_state("s")}, " (s : S)",
+                lambda res, ex: [("value", "bool", term_of(res))]),
+            _aw("aw_terminal", "terminal", lambda: {"self": _aw_self(), "state": _aw_state("s"), "key": K("k")}, " (s : S) (k : kpath)",
+                lambda res, ex: [("value", "bool", term_of(res))]),
+            _tl("tl_transition_info", "transition_info", lambda: {"self": _tl_self(), "state": _tl_state("c", "si"), "action": O("a"),
+                                                                  "next_state": _tl_state("c2", "si2")},
+                " (c : Z) (si : S) (a : A) (c2 : Z) (si2 : S)", lambda res, ex: [("value", "Q", term_of(res))])],
+    "C10": [Kernel("on_num_iterations", "algorithm/on_policy.py", "AbstractOnPolicyAlgorithm", "num_iterations", _numit_bind,
+                   "(total N T : Z)", lambda res, ex: [("value", "Z", term_of(res, "Z"))]),
+            Kernel("off_num_iterations", "algorithm/off_policy.py", "AbstractOffPolicyAlgorithm", "num_iterations", _numit_bind,
+                   "(total N T : Z)", lambda res, ex: [("value", "Z", term_of(res, "Z"))]),
+            Kernel("dqn_per_iteration", "algorithm/dqn.py", "DQN", "per_iteration", _dqn_periter_bind,
+                   "{X : Type} (interval count : nat) (online target : X)", _dqn_periter_out, prims=_SCHED_PRIMS),
+            Kernel("polyak", "algorithm/sac.py", None, "_soft_update_targets", _polyak_bind,
+                   "(tau q1 t1 q2 t2 : R)", _polyak_out, prims=_SCHED_PRIMS)],
     "C08": [Kernel("ppo", "algorithm/ppo.py", "PPO", "ppo_loss", _ppo_bind,
                    "(normalize clip_vf : bool) (eps cv ce : R) (values log_probs entropy old_log_probs advs old_values returns : list R)",
                    _ppo_out,
@@ -290,9 +452,19 @@ def translate(pid):
     """[(kernel, sha, [(suffix, type, term)])]"""
     out = []
     for k in KERNELS[pid]:
-        path = src_root() / k.file
+        files = k.file if isinstance(k.file, (list, tuple)) else [k.file]
+        clss = k.cls if isinstance(k.cls, (list, tuple)) else [k.cls] * len(files)
         try:
-            fn, sha = find_function(path, k.cls, k.func)
+            fn = None
+            for f_, c_ in zip(files, clss):      # the class itself first, then its base classes (method resolution order)
+                path = src_root() / f_
+                try:
+                    fn, sha = find_function(path, c_, k.func)
+                    break
+                except TranslateError as e_:
+                    err = e_
+            if fn is None:
+                raise err
             set_carrier(k.carrier)
             ex = Executor(prims=k.prims)
             scope = {}
@@ -306,7 +478,7 @@ def translate(pid):
             res = run_function(ex, fn, b, scope)
             out.append((k, sha, k.outputs(res, ex)))
         except TranslateError as e:
-            raise TranslateError(f"{k.file}:{k.cls or ''}.{k.func}: {e}") from e
+            raise TranslateError(f"{k.file}:{k.cls}.{k.func}: {e}") from e
     return out
 
 
@@ -321,7 +493,7 @@ Import ListNotations.
 def coq_text(pid, imports=()):
     parts = [HEADER.format(pid=pid, imports="".join(" " + i for i in imports))]
     for k, sha, outs in translate(pid):
-        parts.append(f"(* {k.file} :: {(k.cls + '.') if k.cls else ''}{k.func}   (sha256 of the file {sha}) *)")
+        parts.append(f"(* {k.file} :: {k.cls}.{k.func}   (sha256 of the file {sha}) *)")
         binders = (" ".join(k.variables) + " " if k.variables else "") + k.params
         for suffix, ty, term in outs:
             parts.append(f"Definition gen_{k.name}_{suffix} {binders} : {ty} :=\n  {term}.")
@@ -329,7 +501,7 @@ def coq_text(pid, imports=()):
     return "\n".join(parts)
 
 
-IMPORTS = {"C19": ("Logging",), "C06": ("Replay",)}
+IMPORTS = {"C19": ("Logging",), "C06": ("Replay",), "C01": ("Env",), "C13": ("Env",)}
 
 
 def generate(pid, coq_dir: Path):
